@@ -565,3 +565,48 @@ def check_float_truncation(prog, chk):
         if f not in FLOAT_TRUNCATION_OK:
             allowed = sum(FLOAT_TRUNCATION_OK.get(o, (0, ""))[0] for o in prog.owners_of(f))
         chk.ob(cnt[f] <= allowed, "A14.float-truncation", f.replace("svgdx::", ""), where.get(f, "-"), f"{cnt[f]} float -> integer cast(s) (reviewed: {allowed}; {why})", f"{f.replace('svgdx::', '')} casts a float to an integer type at {cnt[f]} place(s) (reviewed: {allowed}): the fraction is cut off (and the range saturates), so distinct lengths / distances / coordinates become equal - a choice made on such a key (nearest side, shortest link) is decided by enumeration order instead", by="table")
+
+
+
+def check_extent_seeds(prog, chk):
+    """the running maximum of an extent starts below every value: `f32::MIN` (or NEG_INFINITY) - not
+    `f32::MIN_POSITIVE`, the smallest *positive* number, which no coordinate below ~0 can replace.  Reported when the
+    constant is the initial value of a variable that is updated afterwards (reassigned, written through, or mutably
+    borrowed) in a function that takes float maxima; handing it to `max` directly (`x.max(f32::MIN_POSITIVE)`, a
+    clamp away from zero) is something else and not in question"""
+    from sa import rules as R
+    from sa.prog import Callee, op_place as _opl
+    n = 0
+    for b in prog.bodies.values():
+        if b.unit != "svgdx-lib":
+            continue
+        seeds = []
+        for x, i, st in b.all_stmts():
+            rv = st.get("rv") or {}
+            ops = [rv.get("op")] if rv.get("k") == "use" else (rv.get("ops", []) if rv.get("k") == "aggr" else [])
+            for o in ops:
+                k = o.get("k") if isinstance(o, dict) else None
+                if isinstance(k, dict) and str(k.get("named", "")).endswith("::MIN_POSITIVE") and "lhs" in st:
+                    seeds.append((x, st))
+        if not seeds:
+            continue
+        n += len(seeds)
+        chk.touch(b)
+        maxes = b.call_sites(lambda c: c.path.split("::")[-1] == "max" and ("f32" in c.path or "f64" in c.path))
+        for (x, st) in seeds:
+            targets = {st["lhs"][0]}
+            for (b2, i2, node, how, _c) in R.forward_value_uses(b, st["lhs"][0]):
+                if i2 != R.TERM and "lhs" in node:
+                    targets.add(node["lhs"][0])
+            upd = []
+            for l in targets:
+                if not b.local_name(l):
+                    continue
+                ndefs = len(b.defs_of(l))
+                written = any(how in ("lhs-base",) for (_b, _i, _n, how) in R.uses_of(b, l))
+                mutref = any((nd.get("rv") or {}).get("k") == "ref" and (nd.get("rv") or {}).get("mut") for (_b, _i, nd, how) in R.uses_of(b, l) if how == "ref")
+                if ndefs > 1 or written or mutref:
+                    upd.append(b.local_name(l))
+            if upd and maxes:
+                chk.bad("A16.extent-seed", f"{b.short}:{upd[0]}", b.where(x, st.get("line")), f"`{upd[0]}` starts at MIN_POSITIVE (the smallest positive float, ~1e-38) and is updated afterwards in a function that takes maxima: as the seed of a running maximum it is never replaced by a coordinate at or below zero - the extent of a shape left of / above the origin ends at ~0")
+    chk.ok("A16.extent-seed", "scan", "-", f"{n} use(s) of MIN_POSITIVE in the library examined")
